@@ -32,7 +32,7 @@ type lcWorld struct {
 	first []string        // endpoints in order of arrival for the current request
 }
 
-func bootLC(engine string) *lcWorld {
+func bootLC(engine, basePath string) *lcWorld {
 	w := &lcWorld{fail: map[string]bool{}, rel: make(chan struct{})}
 	var eps []stack.EP
 	for _, n := range []string{"A", "B"} {
@@ -58,7 +58,7 @@ func bootLC(engine string) *lcWorld {
 			return stack.OK(`{"id":"x","object":"chat.completion","choices":[{"index":0,"message":{"role":"assistant","content":"hello"},"finish_reason":"stop"}]}`)
 		})
 		w.bes = append(w.bes, b)
-		eps = append(eps, stack.EP{B: b, Priority: 100})
+		eps = append(eps, stack.EP{B: b, Priority: 100, BasePath: basePath})
 	}
 	o, err := stack.Boot(stack.Opts{Engine: engine, Balancer: "least-connections", Endpoints: eps, CheckInterval: time.Hour})
 	if err != nil {
@@ -92,13 +92,17 @@ func e6(depth int) {
 	vrand.SetScript(nil)
 	alpha := []string{"fail:A", "fail:B", "hold", "ok"}
 	idx := 1 << 22
-	for _, engine := range []string{"sherpa", "olla"} {
+	type wcfg struct{ engine, base string }
+	// endpoint URLs as configured in the wild: bare, and with a trailing slash (the second endpoint-URL shape the
+	// static repository's own comments mention)
+	for _, wc := range []wcfg{{"sherpa", ""}, {"olla", ""}, {"sherpa", "/"}, {"olla", "/"}} {
+		engine := wc.engine
 		var w *lcWorld
 		var hist []string
 		var rec func()
 		run := func(h []string) {
 			if w == nil {
-				if w = bootLC(engine); w == nil {
+				if w = bootLC(engine, wc.base); w == nil {
 					return
 				}
 			}
@@ -112,7 +116,7 @@ func e6(depth int) {
 			}
 			inflight := map[string]int{"A": 0, "B": 0}
 			var wg sync.WaitGroup
-			name := fmt.Sprintf("engine=%s least-connections history [%s]", engine, strings.Join(h, " "))
+			name := fmt.Sprintf("engine=%s endpoint-url-suffix=%q least-connections history [%s]", engine, wc.base, strings.Join(h, " "))
 			bad := false
 			dbg := ""
 			request := func(step int, held bool) {
